@@ -29,14 +29,14 @@ structure Tx where
   id : Nat
   sender : Addr
   dest : String
-  token : Token
+  token : Nat
   amount : Nat
   fee : Nat
   deriving DecidableEq, Repr, Inhabited
 
 structure Batch where
   nonce : Nat
-  token : Token
+  token : Nat
   txs : List Tx
   timeout : Nat
   block : Nat
@@ -200,10 +200,17 @@ def batchExpired (h : Nat) (b : Batch) : Bool := batchCleanupCancels && batchCle
 /-- `cleanupTimedOutBatches` -/
 def cleanupBatches (s : State) : State := cancelBatches (batchExpired (heightOf batchCleanupSrc s)) s
 
+/-- the account `HandleOutgoingBridgeCallRefund` pays (read from the source): the record's refund address or its sender -/
+def callRefundTo (c : Call) : Addr :=
+  match callRefundReceiver with
+  | .refund => c.refund
+  | .sender => c.sender
+  | .unknown => c.refund
+
 /-- `HandleOutgoingBridgeCallRefund` + `DeleteOutgoingBridgeCallRecord` bookkeeping for one record -/
 def refundCall (s : State) (c : Call) : State :=
-  { s with bal := if callCleanupRefunds then creditAll c.refund c.tokens s.bal else s.bal,
-           settled := s.settled ++ [⟨true, c.nonce, .refunded, c.refund, c.tokens⟩] }
+  { s with bal := if callCleanupRefunds then creditAll (callRefundTo c) c.tokens s.bal else s.bal,
+           settled := s.settled ++ [⟨true, c.nonce, .refunded, callRefundTo c, c.tokens⟩] }
 
 def callStops (h : Nat) (c : Call) : Bool := callCleanupStopCmp.eval c.timeout h
 
@@ -245,15 +252,23 @@ def doCancel (s : State) (id : Nat) (who : Addr) : State × Res :=
                 bal := addBal s.bal (who, tx.token) (refundAmount tx),
                 settled := s.settled ++ [⟨false, tx.id, .refunded, who, [(tx.token, refundAmount tx)]⟩] }, .ok 0)
 
+/-- the account `AddUnbatchedTxBridgeFee` debits (read from the source): the message signer or the creator of the entry -/
+def incFeePayerOf (tx : Tx) (who : Addr) : Addr :=
+  match incFeePayer with
+  | .msgSender => who
+  | .txSender => tx.sender
+  | .unknown => who
+
 def doIncFee (s : State) (id : Nat) (who : Addr) (token : Token) (add : Nat) : State × Res :=
   if id = 0 ∨ add = 0 then (s, .err) else
   match s.pool.find? (fun t => t.id = id) with
   | none => (s, .err)
   | some tx =>
-    if ¬ token < s.nTokens ∨ tx.token ≠ token ∨ getBal s.bal (who, token) < add then (s, .err)
+    if ¬ token < s.nTokens ∨ (incFeeTokenCheck = true ∧ tx.token ≠ token) ∨
+        getBal s.bal (incFeePayerOf tx who, token) < add then (s, .err)
     else
       ({ s with pool := insertDesc { tx with fee := tx.fee + add } (s.pool.erase tx),
-                bal := subBal s.bal (who, token) add }, .ok 0)
+                bal := subBal s.bal (incFeePayerOf tx who, token) add }, .ok 0)
 
 /-- the batch with the highest nonce of a token (`GetLastOutgoingBatchByToken`) -/
 def lastBatch (t : Token) (bs : List Batch) : Option Batch :=
@@ -309,15 +324,53 @@ def handleEvent (s : State) : Ev → Option State
     | none => none
     | some b => some (executeBatch s b)
 
-/-- `Attest → TryAttestation` with a single oracle holding all the power -/
+/-- one of the state-changing calls of `TryAttestation`, by the name it has in the source; `none` = panic -/
+def attStep (h : Nat) (ev : Ev) (name : String) (s : State) : Option State :=
+  if name = "SetLastObservedEventNonce" then some { s with eventNonce := s.eventNonce + 1 }
+  else if name = "SetLastObservedBlockHeight" then some { s with obsExt := h, obsFx := s.fxHeight }
+  else if name = "processAttestation" then handleEvent s ev
+  else if name = "cleanupTimedOutBatches" then some (cleanupBatches s)
+  else if name = "cleanupTimeOutBridgeCall" then some (cleanupCalls s)
+  else some s
+
+def attSteps (h : Nat) (ev : Ev) : List String → State → Option State
+  | [], s => some s
+  | n :: ns, s => match attStep h ev n s with
+    | none => none
+    | some s' => attSteps h ev ns s'
+
+/-- `Attest → TryAttestation` with a single oracle holding all the power: the state-changing calls run in the order
+they have in the source (`tryAttestationOrder`, regenerated); a panic reverts the whole claim transaction -/
 def doObserve (s : State) (h : Nat) (ev : Ev) : State × Res :=
+  match attSteps h ev tryAttestationOrder s with
+  | none => (s, .panic)
+  | some s' => (s', .ok (s.eventNonce + 1))
+
+/-- the same with the order as it is in the source now (see `Proofs.C05.doObserve_eq`) -/
+def doObserveStd (s : State) (h : Nat) (ev : Ev) : State × Res :=
   let s1 := { s with eventNonce := s.eventNonce + 1, obsExt := h, obsFx := s.fxHeight }
   match handleEvent s1 ev with
   | none => (s, .panic)
   | some s2 => (cleanupCalls (cleanupBatches s2), .ok s1.eventNonce)
 
-/-- `ExecuteClaim` for bridge-call result claims (`BridgeCallResultHandler`) -/
+/-- `ExecuteClaim` for bridge-call result claims (`BridgeCallResultHandler`): whether the record is refunded and whether
+it is deleted, per outcome, is read from the source (`resultRefundsOn…`, `resultDeletesOn…`) -/
 def doExec (s : State) (n : Nat) : State × Res :=
+  match s.pending.find? (fun p => p.1 = n) with
+  | none => (s, .err)
+  | some p =>
+    match s.calls.find? (fun c => c.nonce = p.2.1) with
+    | none => (s, .panic)
+    | some c =>
+      let refunds := if p.2.2 then resultRefundsOnSuccess else resultRefundsOnFailure
+      let deletes := if p.2.2 then resultDeletesOnSuccess else resultDeletesOnFailure
+      let s1 := { s with pending := s.pending.erase p, calls := if deletes then s.calls.erase c else s.calls }
+      if refunds then (refundCall s1 c, .ok 0)
+      else if p.2.2 then ({ s1 with settled := s1.settled ++ [⟨true, c.nonce, .executed, 0, c.tokens⟩] }, .ok 0)
+      else (s1, .ok 0)
+
+/-- the same with the refund / delete pattern the source has now (see `Proofs.C05.doExec_eq`) -/
+def doExecStd (s : State) (n : Nat) : State × Res :=
   match s.pending.find? (fun p => p.1 = n) with
   | none => (s, .err)
   | some p =>
@@ -328,6 +381,13 @@ def doExec (s : State) (n : Nat) : State × Res :=
       if p.2.2 then
         ({ s1 with settled := s1.settled ++ [⟨true, c.nonce, .executed, 0, c.tokens⟩] }, .ok 0)
       else (refundCall s1 c, .ok 0)
+
+/-- what `EndBlocker` does to the part of the state modelled here: the clean-ups it calls (regenerated list; none in the
+source as it is), at the new height -/
+def endBlock (s : State) : State :=
+  endBlockerCleanups.foldl (fun s name =>
+    if name = "cleanupTimedOutBatches" then cleanupBatches s
+    else if name = "cleanupTimeOutBridgeCall" then cleanupCalls s else s) s
 
 def step (s : State) : Op → State × Res
   | .send a d t am f => doSend s a d t am f
@@ -341,7 +401,7 @@ def step (s : State) : Op → State × Res
     -- `Params.ValidateBasic`
     if p.avgBlockTime < 100 ∨ p.avgExtBlockTime < 100 ∨ p.batchTimeout < 60000 ∨ p.callTimeout ≤ 3600000 then (s, .err)
     else ({ s with params := p }, .ok 0)
-  | .block n => ({ s with fxHeight := s.fxHeight + n }, .ok 0)
+  | .block n => (endBlock { s with fxHeight := s.fxHeight + n }, .ok 0)
 
 def run (s : State) (ops : List Op) : State := ops.foldl (fun s op => (step s op).1) s
 
